@@ -12,7 +12,7 @@ from commonroad.common.util import FileFormat
 from commonroad.common.writer.file_writer_interface import OverwriteExistingFile
 from commonroad.planning.planning_problem import PlanningProblemSet
 from contracts.c01 import RoundTrip, mk_planning_problems, mk_scenario
-from pyvc.contract import B, Contract, R, T, conj, register
+from pyvc.contract import B, Contract, R, T, conj, register, scratch_dir
 from pyvc.xmlmodel import NumText, XElem
 
 
@@ -60,7 +60,7 @@ def written(F, path):
 
 def out_path(F, name):
     if F.native:
-        d = tempfile.mkdtemp(prefix="verif_c15_")
+        d = scratch_dir("c15_")
         return os.path.join(d, name)
     return "/nonexistent-dir/" + name
 
@@ -146,7 +146,7 @@ class SkipExisting(WriterContract):
 
     def build(self, F):
         sc, pps = self.scenario(F)
-        fd, path = tempfile.mkstemp(suffix=".xml", prefix="verif_c15_")
+        fd, path = tempfile.mkstemp(suffix=".xml", prefix="verif_c15_", dir=scratch_dir("c15_"))
         os.write(fd, b"<keep/>")
         os.close(fd)
         return {"sc": sc, "pps": pps, "path": path, "args": []}
